@@ -9,4 +9,4 @@ Extraction "../extract/gen/nav.ml"
   Z.add Z.mul Z.sub Z.opp Z.div Z.modulo Z.ltb Z.eqb Z.of_N Z.to_N N.add N.mul Z.of_nat Z.to_nat
   query_traversal_steps query last_symbol query_steps_to_path rename child parent try_index
   add_symbol_usage use_pairs run_pass find_ go_to_definition find_references document_highlight
-  rename_handler rename_symbol prepare_rename Known_import_alias Known_greedy_untaken_definition.
+  rename_handler rename_symbol prepare_rename Known_greedy_untaken_definition.
